@@ -8,7 +8,12 @@ symbolic iteration: every name (or attribute of a local object) the loop body as
 by an earlier send - and the received message is the pair (j, F1all).  Array accesses are kept as references (root, rows, column) that compose
 through views (`D = d[kdof]; D[:, i-1]`, `Force[kdof, i-1]`, `Force[:, i-1][kdof]` are one reference), helpers of the same classes/modules are
 followed on their argument values, attribute stores / setattr / getattr / delattr with constant names are attribute effects, `for` over a
-constant tuple and list comprehensions over one are unrolled.  Nothing here knows how a local is called."""
+constant tuple and list comprehensions over one are unrolled.  Nothing here knows how a local is called.
+
+Objects have identity: `x += y`, `np.add(.., out=x)`, `x[:] = ..` update the object every other name (in this frame and, through parameters, in the
+caller's) refers to - when the value is provably an array (`is_array`; for a value an earlier send left behind this is an induction the rule checks),
+otherwise those other names become Unknown.  A column of a watched array bound to a local stays a view of it (`col = V[:, i]; col += ..` is a store),
+a load of a cell the same iteration has stored reads the stored value, copies are new objects."""
 from __future__ import annotations
 
 import ast
@@ -137,6 +142,7 @@ class Facts:
         self.lost = []                      # calls whose effects on the arrays could not be followed: the evaluation must not be used
         self.crashes = []                   # (message, statement): a name read on the path taken that nothing has bound (NameError / UnboundLocalError)
         self.carry_inits = {}               # carried slot -> its value before the receiving loop
+        self.no_assume = set()              # carried slots for which that assumption must not be made
         self.assumed_arrays = set()         # carried slots taken to hold an array because their initial value is one (to be checked on what sends leave)
 
     def is_generic(self, name):
@@ -581,7 +587,12 @@ class GenEval(AutoEvaluator):
 
     def _name(self, nm):
         if nm in self.env:
-            return self.env[nm]
+            v = self.env[nm]
+            if self.in_loop and nm in self.carried and nm not in self.carry_init and self.facts.signs.get("j") == "+" and symname(v) == "carry:" + nm \
+                    and not any(isinstance(g_, F.Rat) and g_.equals(J) for g_ in self.facts.ge2):
+                # nothing binds the name before the loop and this send has not bound it yet: the very first send (a positive one) dies here
+                self._crash(f"local `{nm}` is not bound on this path (the first send reads it before anything is bound to it)")
+            return v
         if nm in self.locals_:
             # a local that no statement on this path has bound: reading it is an UnboundLocalError, not a symbol of its own
             self._crash(f"local `{nm}` is not bound on this path")
@@ -669,6 +680,8 @@ class GenEval(AutoEvaluator):
         if attr in ("real", "imag"):
             return F.fn("re" if attr == "real" else "im", need(base))
         s = symname(base)
+        if s is not None and attr == "__dict__":
+            return F.sym("vars:" + s)
         if s is not None:
             dd = f"{s}.{attr}"
             if dd in self.env:
@@ -802,6 +815,13 @@ class GenEval(AutoEvaluator):
         if not isinstance(base, F.Rat):
             return Unknown(f"subscript of {base!r}")
         s = symname(base)
+        if s is not None and s.startswith("vars:"):
+            an = strconst(self.ev(node.slice))
+            if an is None:
+                return Unknown(f"attribute dictionary indexed with a key that is not a constant: {ast.unparse(node)}")
+            d = f"{s[5:]}.{an}"
+            self.events.append(("getattr", d, node))
+            return self.env.get(d, F.sym(d))
         if s is not None and self.heap.get(s) == "dict":
             ck = self._const_key(self.ev(node.slice))
             if ck is None:
@@ -1099,8 +1119,8 @@ class GenEval(AutoEvaluator):
 
     def _heap_method(self, node):
         """(object, FunctionDef) when the call is a method call on an object of a small class of the module created here"""
-        if not isinstance(node.func, ast.Attribute):
-            return None
+        if not isinstance(node.func, ast.Attribute) or dotted(node.func.value) is None:
+            return None                     # (the receiver is a name or an attribute chain: evaluating it twice has no effect)
         try:
             bv = self.ev(node.func.value)
         except Unsupported:
@@ -1176,6 +1196,35 @@ class GenEval(AutoEvaluator):
                 self.env.pop(f"{s}.{an}", None)
                 self.events.append(("del", f"{s}.{an}", node))
                 return NONE
+        if name == "vars" and len(args) == 1 and not kw:
+            o = symname(self.ev(args[0]))
+            if o is not None:
+                return F.sym("vars:" + o)          # the attribute dictionary of a named object: its items are the object's attribute slots
+        if meth in ("pop", "get", "update", "setdefault", "__getitem__") and isinstance(node.func, ast.Attribute):
+            o = symname(self.ev(node.func.value)) or ""
+            if o.startswith("vars:"):
+                o = o[5:]
+                an = strconst(self.ev(args[0])) if args else None
+                if meth in ("pop", "get", "__getitem__") and an is not None and len(args) <= 2 and not kw:
+                    d = f"{o}.{an}"
+                    self.events.append(("getattr", d, node))
+                    if d in self.env:
+                        v = self.env[d]
+                    elif len(args) == 2:
+                        v = self.ev(args[1])
+                    else:
+                        v = F.sym(d) if not o.startswith(HEAP) else Unknown(f"attribute `{an}` of the object is not defined")
+                    if meth == "pop":
+                        self.env.pop(d, None)
+                        self.events.append(("del", d, node))
+                    return v
+                if meth == "update" and not args and all(k.arg is not None for k in node.keywords):
+                    for k_, x in kw.items():
+                        v = self.ev(x)
+                        self.env[f"{o}.{k_}"] = v
+                        self.events.append(("setattr", f"{o}.{k_}", v, node))
+                    return NONE
+                return self._lost(f"`{ast.unparse(node)[:60]}`: the attribute dictionary of an object used in a way the engine does not follow")
         if name == "zip" and args and not kw:
             vs = [self.ev(a) for a in args]
             vs = [tuple(F.sym(repr(ch)) for ch in strconst(v)) if strconst(v) is not None else v for v in vs]
@@ -1377,7 +1426,7 @@ class GenEval(AutoEvaluator):
                     return NONE
                 return self._lost(f"`{ast.unparse(node)[:60]}`: a method that changes an array in place")
         if meth is not None:
-            if meth in ("ravel", "astype", "squeeze", "flatten", "reshape", "view", "conj_none"):
+            if meth in ("ravel", "squeeze", "reshape", "view", "conj_none"):
                 return self.ev(node.func.value)
             if meth == "copy":
                 v = self.ev(node.func.value)
@@ -1449,6 +1498,11 @@ class GenEval(AutoEvaluator):
                 continue                                     # another column
             if rw0.equals(rows) or (is_all(rw0) and is_all(rows)):
                 return v0 if isinstance(v0, F.Rat) else Unknown("the value stored earlier in this iteration is not a formula")
+            if is_all(rw0) and isinstance(v0, F.Rat) and not is_unknown(v0):
+                try:
+                    return self._index(v0, [rows])           # all rows were stored: the rows read are that part of the stored value
+                except Unsupported as e:
+                    return Unknown(str(e))
             if symname(rw0) is not None and symname(rows) is not None and not is_all(rw0) and not is_all(rows) \
                     and {symname(rw0), symname(rows)} in _DISJOINT:
                 continue                                     # another partition
@@ -1809,6 +1863,8 @@ class GenEval(AutoEvaluator):
             for k, v in outer.env.items():
                 if k not in env and "." not in k and not k.startswith(HEAP):
                     env[k] = v
+            for p_ in outer.params_:
+                env.setdefault(p_, F.sym(p_))
         if method:
             # the object's attributes are visible to its methods
             for k, v in self.env.items():
@@ -1881,6 +1937,8 @@ class GenEval(AutoEvaluator):
         if bound is None:
             return self._lost(f"call of {clo!r} does not fit its signature")
         env = dict(clo.ev.env)          # late binding: the defining scope as it is now
+        for p_ in clo.ev.params_:
+            env.setdefault(p_, F.sym(p_))    # ... including its parameters (symbols of their own there)
         if clo.ev is not self:
             for k, v in self.env.items():
                 if k.startswith(HEAP):
@@ -1984,6 +2042,12 @@ class GenEval(AutoEvaluator):
             for t in st.targets:
                 for e in (t.elts if isinstance(t, (ast.Tuple, ast.List)) else [t]):
                     d = e.id if isinstance(e, ast.Name) else (self.canon_dotted(e) if isinstance(e, ast.Attribute) else None)
+                    if isinstance(e, ast.Subscript):
+                        bs = symname(self.ev(e.value)) or ""
+                        an = strconst(self.ev(e.slice)) if bs.startswith("vars:") else None
+                        if an is None:
+                            raise Unsupported(f"del {ast.unparse(e)[:50]}")
+                        d = f"{bs[5:]}.{an}"
                     if d:
                         self.env.pop(d, None)
                         self.events.append(("del", d, st))
@@ -2063,6 +2127,8 @@ class GenEval(AutoEvaluator):
     def _while(self, st):
         t = self.decide(st.test)
         if not _has_yield(st):
+            if t is True and not st.orelse and not _contains(st.body, (ast.Break, ast.Return)):
+                self._crash("a `while True` loop without yield, break or return never hands control back: the caller's next() / send() hangs (or dies inside)")
             raise Unsupported("a while loop that is not a generator loop")
         if t is False:
             return
@@ -2193,6 +2259,8 @@ class GenEval(AutoEvaluator):
                 return 1
             if nm.startswith("carry:"):
                 init = self.facts.carry_inits.get(nm[6:])
+                if nm[6:] in self.facts.no_assume:
+                    return None
                 if init is not None and self.is_array(init, depth + 1) is True:
                     self.facts.assumed_arrays.add(nm[6:])
                     return 1
@@ -2287,6 +2355,13 @@ class GenEval(AutoEvaluator):
         if isinstance(target, ast.Subscript):
             bv = self.ev(target.value)
             bs = symname(bv)
+            if bs is not None and bs.startswith("vars:"):
+                an = strconst(self.ev(target.slice))
+                if an is None:
+                    raise Unsupported(f"store into the attribute dictionary of an object under a key that is not a constant: {ast.unparse(target)}")
+                self.env[f"{bs[5:]}.{an}"] = v
+                self.events.append(("setattr", f"{bs[5:]}.{an}", v, st))
+                return
             if bs is not None and self.heap.get(bs) == "dict":
                 ck = self._const_key(self.ev(target.slice))
                 if ck is None:
@@ -2326,6 +2401,14 @@ class GenEval(AutoEvaluator):
             self.seq += 1
             if self.iter_stores is not None:
                 self.iter_stores.append((ref[0], ref[1], ref[2], v) if ref is not None else (bv if isinstance(bv, F.Rat) else None, None, None, v))
+            if ref is not None and self.views and isinstance(v, F.Rat) and not is_unknown(v):
+                # a local bound to a view of the same cell (`col = V[:, i]` before `V[:, i] = ...`) sees the new content
+                for obj, r0, rw0, c0 in list(self.views.values()):
+                    if obj is not v and all(isinstance(x, F.Rat) for x in (r0, rw0, c0, ref[0], ref[1], ref[2])) and r0.equals(ref[0]) and rw0.equals(ref[1]) \
+                            and c0.equals(ref[2]) and any(x is obj for x in self.env.values()):
+                        nv = self._copy_of(v)
+                        self._update_object(obj, nv)
+                        self.views[id(nv)] = (nv, r0, rw0, c0)
             if ref is None:
                 self.gcells.append(dict(root=None, rows=None, col=None, value=v, cur=cur, node=st, in_loop=self.in_loop, seq=self.seq,
                                         text=ast.unparse(target)))
